@@ -353,9 +353,13 @@ func (c *cluster) monitor(key string, l UpdateListener, replay bool) error {
 	}
 
 	rev := c.load(cli, key)
+	// 与 reload 互斥：reload 等待旧的监控协程退出（WaitGroup.Wait）期间不能再向该组添加协程，
+	// 否则 Wait 被唤醒后发现计数又非零会 panic（WaitGroup is reused before previous Wait has returned）
+	c.reloadLock.Lock()
 	c.watchGroup.Run(func() {
 		c.watch(cli, key, rev)
 	})
+	c.reloadLock.Unlock()
 
 	return nil
 }
